@@ -44,7 +44,7 @@ RULE = (
     "rejection, a reader or writer seek, a rejected 0 past the end; distinct by hash of the executed "
     "operation list. exh: every file of 0 and 1 bytes and every 2-byte file with the last 16-L bits zero "
     "(L = 14 quick / 16 thorough; i.e. every bit string of length <= L as flush() pads it) x start offset "
-    "{0,3} (quick: one of the two per program; thorough: both) x block length 0..bits+2 (and -2,-1 on BitstreamReader only) x 12 read programs of "
+    "0 or 3 (alternating per program and per file) x block length 0..bits+2 (and -2,-1 on BitstreamReader only) x 12 read programs of "
     "uint/sint/bool/nbits inside the block followed by the block end, the unused bits and two reads "
     "outside; each (file, offset, length, program) is one evaluation; the distinct count for this part is "
     "the number of (file, block length) pairs for which some program consumed at least one real bit in the "
@@ -1096,7 +1096,6 @@ def exh_files(lmax):
 def run_exh(ctx, k, n, mods):
     col = ctx.col
     lmax = ctx.pick(14, 16)
-    full_cross = ctx.thorough
     nprog = len(PROGRAMS)
     evals = 0
     dangling_cases = 0
@@ -1112,8 +1111,8 @@ def run_exh(ctx, k, n, mods):
                 if pre > nbits:
                     continue
                 for pi in range(nprog):
-                    if not full_cross and PRE[(pi // 2) % 2] != pre:
-                        continue
+                    if PRE[(pi // 2 + fi) % 2] != pre:
+                        continue  # each program runs at one start offset per file, alternating between files
                     res_m, m = exh_one(mods, data, pre, blen, pi, col)
                     evals += 1
                     if res_m[-1] == ("EOF",):
@@ -1242,8 +1241,8 @@ def run_shard(spec, ctx):
     if kind == "exh":
         run_exh(ctx, k, n, _mods())
     elif kind == "machine":
-        run_machines(ctx, ctx.pick(80, 1500), ctx.pick(30, 50))
-        run_rnd_machines(ctx, ctx.pick(1500, 60000), ctx.pick(30, 50))
+        run_machines(ctx, ctx.pick(80, 1000), ctx.pick(30, 50))
+        run_rnd_machines(ctx, ctx.pick(1500, 40000), ctx.pick(30, 50))
     else:
         run_len(ctx, k, n)
 
